@@ -58,6 +58,31 @@ def substFolder (params : List GArg) : Folder where
       | none => .error (.panic "index out of bounds")
     else .ok (.mk ty (.bound (db - 1 + outer) idx))
 
+/-- `SubstFolder` of `chalk-ir/src/lib.rs` (`Substitution::apply` / `Substitute::apply`): asserts that
+    the variable belongs to the innermost binder, indexes the parameters, `assert_*_ref` unwraps. -/
+def applyFolder (params : List GArg) : Folder where
+  freeVarTy := some fun db idx outer =>
+    if db = 0 then
+      match params[idx]? with
+      | some (.ty t) => foldTy (shifter outer) 0 t
+      | some _ => .error (.panic "called Option::unwrap on a None value")
+      | none => .error (.panic "index out of bounds")
+    else .error (.panic "assert_eq debruijn INNERMOST")
+  freeVarLt := some fun db idx outer =>
+    if db = 0 then
+      match params[idx]? with
+      | some (.lt l) => foldLifetime (shifter outer) 0 l
+      | some _ => .error (.panic "called Option::unwrap on a None value")
+      | none => .error (.panic "index out of bounds")
+    else .error (.panic "assert_eq debruijn INNERMOST")
+  freeVarConst := some fun _ db idx outer =>
+    if db = 0 then
+      match params[idx]? with
+      | some (.ct c) => foldConst (shifter outer) 0 c
+      | some _ => .error (.panic "called Option::unwrap on a None value")
+      | none => .error (.panic "index out of bounds")
+    else .error (.panic "assert_eq debruijn INNERMOST")
+
 /-- `Subst::apply(interner, parameters, value)` -/
 def Ty.subst (params : List GArg) (t : Ty) : Res Ty := foldTy (substFolder params) 0 t
 def Lifetime.subst (params : List GArg) (l : Lifetime) : Res Lifetime := foldLifetime (substFolder params) 0 l
